@@ -9,6 +9,7 @@
 
 #include <iostream>
 #include <memory>
+#include <mutex>
 #include <optional>
 #include <vector>
 
@@ -40,6 +41,29 @@ struct Frame {
     std::vector<std::uint8_t> plaintext;
     std::array<std::uint8_t, 12> nonce{};
     std::optional<protocol::Message> message;   // decode_signed under the current session key
+};
+
+// Listening ports of real transports are taken from a small per-process pool and reused from case to case (the node sets
+// SO_REUSEADDR).  A fresh ephemeral port per case would stay blocked for a minute by the TIME_WAIT remains of its connections;
+// a long run then eats the whole ephemeral port range and fails every other program on the machine as well.
+struct PortPool {
+    struct Slot { std::uint16_t port; bool in_use; };
+    std::vector<Slot> slots;
+    std::mutex m;
+    static PortPool& get() { static PortPool p; return p; }
+    // starts the node's transport; returns the slot index (or -1 when an ephemeral port outside the pool had to be used)
+    int start(Node& node) {
+        std::scoped_lock lock(m);
+        for (std::size_t i = 0; i < slots.size(); ++i) {
+            if (slots[i].in_use) continue;
+            try { node.start_transport(slots[i].port); slots[i].in_use = true; return static_cast<int>(i); }
+            catch (const std::exception&) { /* taken by another process meanwhile: try the next, or a new one */ }
+        }
+        node.start_transport(0);
+        if (slots.size() < 8) { slots.push_back(Slot{node.transport_port(), true}); return static_cast<int>(slots.size()) - 1; }
+        return -1;
+    }
+    void release(int slot) { std::scoped_lock lock(m); if (slot >= 0 && static_cast<std::size_t>(slot) < slots.size()) slots[static_cast<std::size_t>(slot)].in_use = false; }
 };
 
 // Stops a node's transport and destroys it only once every session reader thread has finished.  SessionManager::stop()
